@@ -36,6 +36,9 @@ def run(ctx):
             sc = scanner.Scanner(facts, name)
             rep.fn(sc.body["path"])
             scanner.rule_S1_S2(sc, rep, "C03")
+            # chunk invariance needs every byte to go through the transition function from the carried state: a fast path that
+            # consumes bytes any other way behaves differently when a chunk happens to start where it applies (S5)
+            scanner.rule_S5(sc, rep)
         rep.guarded("carry", scanner.MOD + name, scan)
     rep.guarded("owned-state", "anstream::adapter", lambda: rule_owned(facts, rep))
     rep.guarded("same-start", "anstream::adapter", lambda: rule_same_start(facts, rep))
@@ -47,7 +50,11 @@ def run(ctx):
     rep.guarded("W1", "anstream::strip::write", lambda: stripstream.rule_W1_W3(facts, w1))
     rep.guarded("through", "anstream::strip", lambda: stripstream.rule_through(facts, rep, "through"))
     rep.guarded("who-writes", "anstream::adapter", lambda: rule_who_writes(facts, rep))
-    for r, n in (("S1", 7), ("S2", 8), ("owned-state", 9), ("same-start", 6), ("byte-at-a-time", 5), ("W1", 4), ("through", 7), ("who-writes", 3)):
+    # the styled-run extractor closes a run exactly when the style changes with text pending — on anything else (what the text is,
+    # what the styles are) the runs would depend on where a chunk ends, since the end of a chunk flushes the pending text too
+    from rules import C07
+    rep.guarded("emit", C07.FN + "csi_dispatch", lambda: C07.rule_emit(facts, rep))
+    for r, n in (("S1", 7), ("S2", 8), ("owned-state", 9), ("same-start", 6), ("byte-at-a-time", 5), ("W1", 4), ("through", 7), ("who-writes", 3), ("S5", 12), ("emit", 9)):
         rep.floor(r, n)
 
 
